@@ -415,7 +415,43 @@ def _fs_task(task):
     return part
 
 
+def _validation_like_scalar(_):
+    """'validates exactly like a Scalar holding float(value)' - in categories WITH limits (none is shipped: small
+    databases built like C12's), for fresh FractionScalars and for ONE FractionScalar whose held FractionValue the
+    caller edits in place between the questions."""
+    from . import c12
+
+    part = Part()
+    for qt, du, units in (("length", "m", ["m", "cm", "km"]), ("temperature", "degC", ["degC", "K"])):
+        for kind in c12.LIMIT_KINDS:
+            db, lo, hi, lx, hx, lo_du, hi_du = c12.make_world(qt, du, kind)
+            with worlds.installed(db):
+                for u in units:
+                    mid = db.Convert(qt, du, u, db.Convert(qt, qt == "length" and "m" or "K", du, (c12.TYPES[qt][1] + c12.TYPES[qt][2]) / 2))
+                    span = abs(db.Convert(qt, du, u, hi_du) - db.Convert(qt, du, u, lo_du))
+                    numbers = [mid, mid - span, mid + span, mid, mid + 2 * span, mid]
+                    shared = FractionValue(number=numbers[0])
+                    one = FractionScalar("lim", shared, u)
+                    for x in numbers:
+                        for frac in ((0, 1), (1, 2)):
+                            part.count("evaluations")
+                            shared.SetNumber(x)
+                            shared.SetFraction(frac)
+                            fresh = FractionScalar("lim", FractionValue(x, frac), u)
+                            want = Scalar("lim", float(shared), u).IsValid()
+                            for label, obj in (("fresh FractionScalar", fresh), ("one FractionScalar after its value was edited in place", one)):
+                                try:
+                                    got = obj.IsValid()
+                                except Exception as e:
+                                    got = repr(e)
+                                if got != want:
+                                    part.violation("C18:validation:%s default %s:%s:%s holding %r %r in %s" % (qt, du, kind[0], label, x, frac, u), {"FractionScalar.IsValid": got, "Scalar(float(value)).IsValid": want})
+    return part
+
+
 def _task(task):
+    if task[0] == "validation":
+        return _validation_like_scalar(task[1])
     if task[0] == "fraction":
         p = Part()
         _fraction_part(p)
@@ -436,7 +472,7 @@ def run(ctx):
     step = nmax // 32 + 1
     tasks += [("ff", ("decimal", lo, min(lo + step, nmax + 1), kmax)) for lo in range(0, nmax + 1, step)]
     tasks += [("ff", ("pq", 2, 129 if ctx.thorough else 65, 0))]
-    tasks += [("ff", ("contexts", 0, 0, 0))]
+    tasks += [("ff", ("contexts", 0, 0, 0)), ("validation", None)]
     with worlds.world("posc") as db:
         qts = sorted(db.GetQuantityTypes(), key=lambda q: -len(db.GetUnits(q)))
     tasks += [("fs", (qts[i::48], ctx.thorough)) for i in range(48)]
